@@ -1,8 +1,10 @@
 //! iggy-verif: executes scenario files against the real iggy code and records ndjson traces
 //! for validation against the TLA+ specifications in /verif/specs.
+mod auth_lens;
 mod cat_lens;
 mod grp_lens;
 mod log_lens;
+mod perm_lens;
 mod srv;
 mod topic_lens;
 mod util;
@@ -72,6 +74,14 @@ fn main() {
         "cat" => {
             let l = cat_lens::CatLens::new(&work);
             each_scenario::<cat_lens::Scenario>(&input, &mut tool_errors, |n, s| l.run_scenario(n, s, &mut out))
+        }
+        "auth" => {
+            let l = auth_lens::AuthLens::new(&work);
+            each_scenario::<auth_lens::Scenario>(&input, &mut tool_errors, |n, s| l.run_scenario(n, s, &mut out))
+        }
+        "perm" => {
+            let l = perm_lens::PermLens::new(&work);
+            each_scenario::<perm_lens::Scenario>(&input, &mut tool_errors, |n, s| l.run_scenario(n, s, &mut out))
         }
         "grp" => {
             let l = grp_lens::GrpLens::new(&work);
